@@ -33,7 +33,7 @@ PAYLOADS = ['&', '<', '>', "'", '"', '&amp;', ']]>', ' a', 'a  b', 'a&b<c>', '&#
 DELIMS = [('~', '*', ':'), ('!', '|', '>'), ('$', '|', '+')]
 OUT_DELIMS = '~*:^'
 KEEP = ('ISA', 'GS', 'ST', 'SE', 'GE', 'IEA', 'HL', 'LX', 'BHT')     # segments whose values steer the envelope / map choice
-QUICK_KINDS = ('min', 'min-maxlen', 'lastcode', 'all', 'all-filled', 'two-sets', 'two-groups', 'two-interchanges',
+QUICK_KINDS = ('min', 'min-maxlen', 'lastcode', 'all', 'all-filled', 'all-swapped', 'all-filled-swapped', 'two-sets', 'two-groups', 'two-interchanges',
                'include:', 'repeat2:', 'repeatmax:')
 
 
@@ -51,7 +51,7 @@ def loop_devs(entry):
     """loop-level single deviations (for the pair family)"""
     root = G.load(entry[4])
     out = []
-    for name, plan in gen.plans_d1(entry):
+    for name, plan in (list(gen.plans_d1(entry)) + list(gen.plans_swapped(entry))):
         if name.startswith(('include:', 'repeat2:')):
             n = gen.find(root, name.split(':', 1)[1])
             if n is not None and n.kind == 'loop':
@@ -73,7 +73,7 @@ def merge(p1, p2):
 
 def plan_names(entry, family, thorough):
     if family == 'plan':
-        for name, plan in gen.plans_d1(entry):
+        for name, plan in (list(gen.plans_d1(entry)) + list(gen.plans_swapped(entry))):
             if thorough or name.startswith(QUICK_KINDS):
                 yield name
     elif family == 'pair':
@@ -92,7 +92,7 @@ def plan_names(entry, family, thorough):
 
 
 def plan_by_name(entry, name):
-    d = dict((n, p) for n, p in gen.plans_d1(entry))
+    d = dict((n, p) for n, p in (list(gen.plans_d1(entry)) + list(gen.plans_swapped(entry))))
     if '+' in name:
         a, b = name.split('+')
         return merge(d[a], d[b])
